@@ -46,7 +46,9 @@
 (* producing execution: Atom(s, k, n) = "s.k.n" - the iteration is visible *)
 (* in every value an observer sees.                                        *)
 (*                                                                         *)
-(* Deliberate deviations: every stage succeeds (no failure statuses, no    *)
+(* Deliberate deviations: every stage finishes in a continuable status    *)
+(* (SUCCEEDED, or FAILED_CONTINUE with outputs - the same "DONE" here: what *)
+(* a failed-but-continuing stage produced counts; no halting statuses, no  *)
 (* synthetic stages); only backward jumps whose loop body is closed (every *)
 (* descendant of the target is an ancestor or a descendant of the jumping  *)
 (* stage); jump_context / _jump_outputs and task-written context are not   *)
